@@ -46,7 +46,8 @@ def run_sequence(m, task):
         traj = pd.DataFrame(np.tile(pva.values, (len(pts), 1)) + 1e-6 * rng.randn(len(pts), 9) * [1, 1, 1e5, 1e4, 1e4, 1e4, 1e3, 1e3, 1e3],
                             index=pd.Index(pts, name="time"), columns=list(pva.index))
         data[d] = dict(pva=pva, incs=incs, meas=meas, traj=traj)
-    models = {mm: filt.make_models(m, "full", rng0) for mm in (1, 2)}
+    mkind = "full" if task["seed"] % 2 else "asym"        # both pairs are configured alike (equal runs must give equal results)
+    models = {mm: filt.make_models(m, mkind, rng0) for mm in (1, 2)}
     out = []
     est_nonzero = False
     for step in task["seq"]:
